@@ -41,13 +41,6 @@
 import CatVerif.Proofs.Resolve
 import CatVerif.Proofs.Log
 import CatVerif.Proofs.ResolveLine
-import CatVerif.Proofs.Readers.Name
-import CatVerif.Proofs.Readers.Ack
-import CatVerif.Proofs.Steps.Found
-import CatVerif.Proofs.Steps.Resolve
-import CatVerif.Proofs.Steps.Lanes
-import CatVerif.Proofs.Setters.Prepare
-import CatVerif.Proofs.Steps.Leaves
 namespace Cat
 open St
 
@@ -405,65 +398,6 @@ example (D : Desc) (m : List (List Byte)) : (init D (List.replicate D.cmdCap 0) 
 
 /-- non-vacuity: `A`..`Z`, digits and `+` are name characters -/
 example : NameCh 65 ∧ NameCh 122 ∧ NameCh 43 ∧ NameCh 48 := by unfold NameCh; decide
-
-/-- what follows the name decides the request type: the model's `parseCommand` (and the two
-acknowledge states) are the text regenerated from the source's character switches (T8) -/
-theorem C02_suffix_generated (D : Desc) :
-    parseCommand = Gen.parse_command ∧ waitReadAcknowledge = Gen.wait_read_acknowledge D ∧
-    waitTestAcknowledge = Gen.wait_test_acknowledge :=
-  ⟨parseCommand_generated, waitReadAcknowledge_generated D, waitTestAcknowledge_generated⟩
-
-/-- the dispatch on the request type is the text regenerated from `command_found` /
-`command_not_found` (translator item T9); the model's ghost check "a command is selected" aside -/
-theorem C02_dispatch_generated (D : Desc) (s : St) :
-    commandFound D s = Gen.command_found D (s.chkUb s.cmd.isSome) ∧ commandNotFound D s = Gen.command_not_found D s :=
-  ⟨commandFound_generated D s, commandNotFound_generated D s⟩
-
-/-- the two loops of name resolution — one step of the sweep that updates every entry's match state
-for a typed character, one step of the search for the selected entry — are, in the model, the
-text regenerated from `update_command` and `search_command` of the source (translator item T11:
-locals, lane accessor calls, else-if chains, the pre-increment inside a condition, early returns);
-the model's ghost check "the cursor is inside the table" aside.  `C02_sweep` and `C02_search` are
-theorems about exactly these functions. -/
-theorem C02_loops_generated (D : Desc) (s : St) :
-    updateCommand D s = Gen.update_command D (s.chkUb (decide (s.index < D.commandsNum))) ∧
-    searchCommand D s = Gen.search_command D (s.chkUb (decide (s.index < D.commandsNum))) :=
-  ⟨updateCommand_generated D s, searchCommand_generated D s⟩
-
-/-- the 2-bit lane arithmetic — which byte holds entry `i` (`i >> 2`), how its match state is
-extracted (`>> ((i % 4) << 1)`, `& 3`) and how a new one is merged in (`&= ~(3 << k)`, `|= (v & 3)
-<< k`) — is, in the model (`laneGet`, `laneSet`, index `i / 4`), the natural-number reading of the
-shifts and masks regenerated from `get_cmd_state` / `set_cmd_state` of the source (translator item
-T15), for every stored byte, every position and every state value -/
-theorem C02_lane_bits_generated (b i v : Nat) (hb : b < 256) :
-    laneGet b i = Gen.get_cmd_state_bits b i ∧ laneSet b i v = Gen.set_cmd_state_bits b i v ∧
-    i / 4 = Gen.get_cmd_state_index i ∧ i / 4 = Gen.set_cmd_state_index i :=
-  ⟨laneGet_generated b i hb, laneSet_generated b i v hb, (lane_index_generated i).1, (lane_index_generated i).2⟩
-
-/-- the start of name resolution — every entry's lane preset to PARTIAL_MATCH, cursors and request type cleared
-(`prepare_parse_command`), the search cursor (`prepare_search_command`) — is translated from the source on every run
-(translator item T7) -/
-theorem C02_prepare_generated (D : Desc) (s : St) :
-    prepareParseCommand D s = Gen.prepare_parse_command D s ∧ prepareSearchCommand s = Gen.prepare_search_command D s :=
-  ⟨prepareParseCommand_generated D s, prepareSearchCommand_generated D s⟩
-
-/-- the counters this property's theorems keep as unbounded natural numbers (`cmd_group_num`, `cmd_num`, `commands_num`, `index`, `length`, `partial_cntr`) are declared
-`size_t` in `cat.h` — 64 bits on the target, so they cannot wrap on any buffer, table or line that exists; the widths
-are read from the struct declarations on every run (translator item T21) -/
-theorem C02_counters_unbounded :
-    Gen.width_desc_cmd_group_num = 64 ∧
-    Gen.width_group_cmd_num = 64 ∧
-    Gen.width_obj_commands_num = 64 ∧
-    Gen.width_obj_index = 64 ∧
-    Gen.width_obj_length = 64 ∧
-    Gen.width_obj_partial_cntr = 64 := by decide
-
-/-- the walk over the command groups — which entry a table index names, and whether that entry or its group is disabled —
-is the transliteration of `get_command_by_index` / `is_command_disable`, emitted while their bodies have the recorded form
-(translator item T22) -/
-theorem C02_walk_generated (D : Desc) (i : Nat) :
-    cmdByIndex D.groups i = Gen.get_command_by_index D i ∧ disabledByIndex D.groups i = Gen.is_command_disable D i :=
-  ⟨cmdByIndex_generated D i, disabledByIndex_generated D i⟩
 
 /-- **the `=?` form, composed**: once a name followed by `=` has resolved to entry `j` as a WRITE request
 (`C02_request_resolves`), the bytes `?` and LF make three calls — one to enter argument collection, one that reads the `?`
